@@ -113,7 +113,13 @@ fn import_sequence_node_fields(
 
         if tag_name == "sequence" {
             // nested sequence
-            return import_sequence_node_fields(&mut child, doc, base_fields);
+            import_sequence_node_fields(&mut child, doc, base_fields)?;
+            continue;
+        }
+
+        if matches!(tag_name, "attributeGroup" | "anyAttribute") {
+            // these do not declare a member
+            continue;
         }
 
         // regular field
